@@ -22,6 +22,9 @@ struct HistoryCase {
     /// calls with paths relative to the case directory
     calls: Vec<(String, QuerySrc, Opts, bool /* touches a failing file */)>,
     threads: usize,
+    /// Some(sub-directory): the process runs with that working directory and the calls use
+    /// relative spellings (`x`, `./x`, `../d2/x`, `../d1/../d2/x`)
+    relative_from: Option<String>,
 }
 
 fn gen_history(tape: &[u8], allow_failing: bool, stats: &mut GenStats) -> Option<HistoryCase> {
@@ -41,6 +44,9 @@ fn gen_history(tape: &[u8], allow_failing: bool, stats: &mut GenStats) -> Option
     files.push(("d1/query.graphql".into(), Some(a.case.document.clone())));
     files.push(("d2/query.graphql".into(), Some(b.case.document.clone())));
     files.push(("d3/query.graphql".into(), Some(a.case.document.clone())));
+    // seen from the working directory d1, `d2/query.graphql` and `../d2/query.graphql` are different files
+    files.push(("d1/d2/query.graphql".into(), Some(a.case.document.clone())));
+    files.push((format!("d1/d2/schema.{}", ext_b), Some(a.case.schema_text.clone())));
     let mut good_pairs: Vec<(String, String)> = vec![
         (format!("d1/schema.{}", ext_a), "d1/query.graphql".into()),
         (format!("d2/copy_of_schema.{}", ext_a), "d3/query.graphql".into()),
@@ -48,7 +54,11 @@ fn gen_history(tape: &[u8], allow_failing: bool, stats: &mut GenStats) -> Option
         (format!("d2/copy_of_schema.{}", ext_a), "d1/query.graphql".into()),
         // cross pairs: usually an error result (valid files, unrelated schema)
         (format!("d2/schema.{}", ext_b), "d1/query.graphql".into()),
+        (format!("d1/schema.{}", ext_a), "d1/d2/query.graphql".into()),
     ];
+    if ext_a == ext_b {
+        good_pairs.push((format!("d1/d2/schema.{}", ext_b), "d1/d2/query.graphql".into()));
+    }
     let mut bad_schema: Vec<String> = Vec::new();
     let mut bad_query: Vec<String> = Vec::new();
     if allow_failing {
@@ -97,7 +107,31 @@ fn gen_history(tape: &[u8], allow_failing: bool, stats: &mut GenStats) -> Option
         3 => 8,
         _ => 16,
     };
-    Some(HistoryCase { tape: tape.to_vec(), files: Files { files }, calls, threads })
+    let relative_from = if t.chance(50) { Some("d1".to_string()) } else { None };
+    if relative_from.is_some() {
+        // rewrite every path as a relative spelling from d1
+        let rel = |p: &str, t: &mut Tape| -> String {
+            if let Some(rest) = p.strip_prefix("d1/") {
+                match t.below(3) {
+                    0 => rest.to_string(),
+                    1 => format!("./{}", rest),
+                    _ => format!("../d1/{}", rest),
+                }
+            } else {
+                match t.below(2) {
+                    0 => format!("../{}", p),
+                    _ => format!("../d1/../{}", p),
+                }
+            }
+        };
+        for c in calls.iter_mut() {
+            c.0 = rel(&c.0, &mut t);
+            if let QuerySrc::Path(p) = &c.1 {
+                c.1 = QuerySrc::Path(rel(p, &mut t));
+            }
+        }
+    }
+    Some(HistoryCase { tape: tape.to_vec(), files: Files { files }, calls, threads, relative_from })
 }
 
 fn materialise(dir: &Path, files: &Files) {
@@ -111,7 +145,10 @@ fn materialise(dir: &Path, files: &Files) {
     }
 }
 
-fn abs_job(dir: &Path, call: &(String, QuerySrc, Opts, bool)) -> Job {
+fn abs_job(dir: &Path, call: &(String, QuerySrc, Opts, bool), relative_from: &Option<String>) -> Job {
+    if let Some(sub) = relative_from {
+        return Job { schema_path: call.0.clone(), query: call.1.clone(), opts: call.2.clone(), cwd: Some(dir.join(sub).to_string_lossy().into()) };
+    }
     Job {
         schema_path: dir.join(&call.0).to_string_lossy().into(),
         query: match &call.1 {
@@ -119,13 +156,14 @@ fn abs_job(dir: &Path, call: &(String, QuerySrc, Opts, bool)) -> Job {
             QuerySrc::Text(t) => QuerySrc::Text(t.clone()),
         },
         opts: call.2.clone(),
+        cwd: None,
     }
 }
 
 fn run_case(report: &mut Report, root: &Path, idx: usize, hc: &HistoryCase, memo: &mut BTreeMap<String, Outcome>) {
     let dir: PathBuf = root.join(format!("h{}", idx));
     materialise(&dir, &hc.files);
-    let jobs: Vec<Job> = hc.calls.iter().map(|c| abs_job(&dir, c)).collect();
+    let jobs: Vec<Job> = hc.calls.iter().map(|c| abs_job(&dir, c, &hc.relative_from)).collect();
     // reference: the same call made alone in a fresh process (memoised per distinct call)
     let mut need: Vec<(String, Job)> = Vec::new();
     for j in &jobs {
@@ -190,6 +228,7 @@ fn replay_value(hc: &HistoryCase, observed: &str) -> Value {
         "files": hc.files.files.iter().map(|(p, c)| json!({"path": p, "content": c})).collect::<Vec<_>>(),
         "calls": hc.calls.iter().map(|(s, q, o, f)| json!({"schema": s, "query": q, "opts": o, "failing": f})).collect::<Vec<_>>(),
         "threads": hc.threads,
+        "relative_from": hc.relative_from,
         "observed": observed,
     })
 }
@@ -201,7 +240,7 @@ fn from_replay(v: &Value) -> Option<HistoryCase> {
         .iter()
         .map(|c| (c["schema"].as_str().unwrap_or("").to_string(), serde_json::from_value(c["query"].clone()).unwrap_or(QuerySrc::Text(String::new())), serde_json::from_value(c["opts"].clone()).unwrap_or_default(), c["failing"].as_bool().unwrap_or(false)))
         .collect();
-    Some(HistoryCase { tape: crate::tape::unhex(v["tape_hex"].as_str().unwrap_or("")), files: Files { files }, calls, threads: v["threads"].as_u64().unwrap_or(1) as usize })
+    Some(HistoryCase { tape: crate::tape::unhex(v["tape_hex"].as_str().unwrap_or("")), files: Files { files }, calls, threads: v["threads"].as_u64().unwrap_or(1) as usize, relative_from: v["relative_from"].as_str().map(|s| s.to_string()) })
 }
 
 pub fn run(report: &mut Report, replay: Option<&Value>) {
@@ -240,6 +279,7 @@ pub fn run(report: &mut Report, replay: Option<&Value>) {
             run_case(report, &root, i, &hc, &mut memo);
             report.programs += 1;
             report.feature(&format!("threads:{}", hc.threads));
+            report.feature(if hc.relative_from.is_some() { "paths:relative" } else { "paths:absolute" });
             if done < 2 {
                 done += 1;
                 report.sample(json!({"files": hc.files.files.iter().map(|(p, c)| json!({"path": p, "bytes": c.as_ref().map(|c| c.len())})).collect::<Vec<_>>(), "calls": hc.calls.iter().take(8).map(|(s, q, o, _)| json!({"schema": s, "query": match q { QuerySrc::Path(p) => format!("path:{}", p), QuerySrc::Text(t) => format!("text:{} bytes", t.len()) }, "normalization_rust": o.normalization_rust})).collect::<Vec<_>>(), "n_calls": hc.calls.len(), "threads": hc.threads}));
